@@ -196,6 +196,8 @@ def run(ctx):
         xa = None if rng.random() < 0.5 else [None, [], [3], ["shots", {"a": 1}], [None], [0, 0.5, "x"]][int(rng.integers(6))]
         xa_seen: list = []
 
+        scribble = [bool(rng.random() < 0.25)]
+
         def experiment(circuits, *extra):
             xa_seen.append(list(extra))
             out = []
@@ -236,6 +238,10 @@ def run(ctx):
                     seen["problems"].append(f"received circuit could not be evaluated: {type(e).__name__}: {e}")
                     probs = {State(in_occ): 1.0}
                 out.append(SamplingResult(probs, State(in_occ)) if as_result else probs)
+            if scribble[0] and isinstance(circuits, list) and len(circuits) > 1:
+                circuits.append(circuits.pop(0))        # the list handed over is the callback's to reorder; its answers were
+                if rng.random() < 0.3:                  # given in the order received
+                    circuits.clear()
             return out
 
         try:
@@ -277,6 +283,19 @@ def run(ctx):
             if not xa_seen or any(x != list(xa or []) for x in xa_seen):
                 ctx.violation(f"the experiment was called with extra arguments {xa_seen[:2]}, experiment_args was {xa!r}",
                               case=case, mechanism="experiment_args_not_passed_on", monitor="experiment callback")
+            if scribble[0]:
+                # ... and the same object asked again must give the same answer
+                ctx.bucket("callback_reorders_the_list_it_was_given")
+                rho_first = np.array(rho, copy=True)
+                seen["settings"].clear(); seen["data"].clear(); seen["problems"].clear()
+                rho = st.process()
+                # (rounded integer counts are drawn with a fresh random scale on every call: only exact data is compared)
+                if data_kind in ("exact", "unnormalised_floats") and float(np.max(np.abs(rho - rho_first))) > 1e-9:
+                    ctx.violation(f"process() called again on the same object (after the experiment had reordered the list of "
+                                  f"circuits it was given) returns a rho that differs by "
+                                  f"{float(np.max(np.abs(rho - rho_first))):.3g}", case=case,
+                                  mechanism="rho_changes_on_second_process_after_callback_reordered_list",
+                                  monitor="StateTomography.process repeated")
             fid = st.fidelity(rho_exp)
         except Exception as e:  # noqa: BLE001
             ctx.violation(f"StateTomography raised {type(e).__name__}: {e}", case=case,
